@@ -74,6 +74,19 @@ def check_case(case: dict, note: Note) -> Failure | None:
         shutil.rmtree(top / "outside", ignore_errors=True)
         got = _resolve(root, True)
         no_gi = _resolve(root, False)
+        # one resolver instance used for a sub-directory first and the whole tree afterwards (its caches must not
+        # carry rules from one traversal root into another)
+        subdirs = sorted(e[1] for e in tree if e[0] == "dir")
+        if subdirs:
+            from flowmark.file_resolver import FileResolver, FileResolverConfig
+
+            fr = FileResolver(FileResolverConfig(exclude=[], files_max_size=0))
+            sub = root / subdirs[len(subdirs) // 2]
+            first = {str(p.relative_to(root.resolve())) for p in fr.resolve([str(sub)])}
+            second = {str(p.relative_to(root.resolve())) for p in fr.resolve([str(root)])}
+            fresh_sub = {str(p.relative_to(root.resolve())) for p in FileResolver(FileResolverConfig(exclude=[], files_max_size=0)).resolve([str(sub)])}
+            if second != got or first != fresh_sub:
+                return Failure("resolver-reuse-changes-result", f"tree={tree}\n.gitignore files={ignores}\nsame resolver, {sub.name} first then the whole tree: {sorted(second)}\nfresh resolver: {sorted(got)}\nsub-directory: reused {sorted(first)} fresh {sorted(fresh_sub)}")
         listed = git_listing(root, home)
         shutil.rmtree(root / ".git", ignore_errors=True)
         want = {p for p in listed if fnmatch.fnmatchcase(p.split("/")[-1], "*.md")}
@@ -181,6 +194,11 @@ def _case(draw, disabled: frozenset):
     gi = {}
     for at in draw(st.lists(st.sampled_from([""] + dirs), min_size=1, max_size=3, unique=True)):
         gi[at] = [rule_for(at) for _ in range(draw(st.integers(1, 4)))]
+        if not simple_only and draw(st.integers(0, 4)) == 0:
+            # order matters: ignore, re-include, ignore again (the last matching rule wins)
+            r = next((x for x in gi[at] if x.strip() and not x.startswith(("#", "!"))), None)
+            if r:
+                gi[at] += ["!" + r, r] if draw(st.booleans()) else ["!" + r]
     return {"tree": tree, "gitignores": gi}
 
 
